@@ -2,7 +2,6 @@ package props
 
 import (
 	"fmt"
-	"strings"
 
 	"github.com/cinar/indicator/v2/strategy"
 
@@ -12,25 +11,6 @@ import (
 )
 
 func init() { All["C05"] = c05 }
-
-// plusOneKey returns the known-finding key when a strategy that emits n+1
-// actions is (or decorates) one of the two strategies known to shift by the
-// largest period instead of the largest warm-up.
-func plusOneKey(name string) string {
-	// Only shapes that pass the inner stream through unchanged in length
-	// inherit the extra action: the strategy itself or Inverse over it.
-	inner := name
-	for strings.HasPrefix(inner, "decorator.InverseStrategy (") {
-		inner = strings.TrimSuffix(strings.TrimPrefix(inner, "decorator.InverseStrategy ("), ")")
-	}
-	switch {
-	case strings.HasPrefix(inner, "trend.AlligatorStrategy "):
-		return "trend.AlligatorStrategy:alligator-shift-by-period"
-	case strings.HasPrefix(inner, "trend.SmmaStrategy "):
-		return "trend.SmmaStrategy:smma-shift-by-period"
-	}
-	return ""
-}
 
 func c05Check(cc *run.Case, ns namedStrat, class string, n int, inst strategy.Strategy) bool {
 	snaps := reg.Snaps(gen.Bars(cc.R, class, n))
@@ -58,7 +38,7 @@ func c05Check(cc *run.Case, ns namedStrat, class string, n int, inst strategy.St
 		if len(acts) != n {
 			key := ""
 			if len(acts) == n+1 {
-				key = plusOneKey(ns.Name)
+				key = ns.PlusOne
 			}
 			cc.Viol(key, fmt.Sprintf("%s: %d actions for %d snapshots (warm-up %d): a strategy owes exactly one action per snapshot", ns.Name, len(acts), n, ns.Warm), detail)
 			return key != ""
